@@ -316,14 +316,14 @@ def opOpt (st : St α) (id op : String) : P (St α × List String) := do
       | none => return (st, [s!"{id} noslot"])
       | some o => return ({ st with opt := putSlot st.opt ns o }, [s!"{id} ok"])
   | "opt_init" =>
-      -- slot mode N t0 times… P… bc…   (values may be non-finite)
+      -- slot mode N nrows t0 times(N)… P(nrows)… bc…   (N = number of durations, resp. of time points; values may be non-finite)
       let slot ← pNat; let mode ← tok; let n ← pNat; let nrows ← pNat
       match getSlot st.opt slot with
       | none => return (st, [s!"{id} noslot"])
       | some o =>
           let d := o.dim
           let t0 : Ext α ← pExt
-          let times : List (Ext α) ← pMany (if mode == "tp" then n + 1 else n) pExt
+          let times : List (Ext α) ← pMany n pExt
           let P : List (List (Ext α)) ← pMany nrows (pMany d pExt)
           let v0 ← pMany d pExt; let a0 ← pMany d pExt; let j0 ← pMany d pExt
           let vn ← pMany d pExt; let an ← pMany d pExt; let jn ← pMany d pExt
